@@ -9,6 +9,7 @@ import (
 	"strings"
 
 	"github.com/nuetzliches/hookaido/internal/queue"
+	"github.com/nuetzliches/hookaido/internal/verifhook"
 )
 
 type Server struct {
@@ -186,10 +187,13 @@ func (s *Server) ServeHTTP(w http.ResponseWriter, r *http.Request) {
 			return
 		}
 		enqueued++
+		verifhook.Point("ingress.enqueue.target")
 	}
 
+	verifhook.Point("ingress.202.before")
 	w.Header().Set("Content-Type", "application/json")
 	w.WriteHeader(http.StatusAccepted)
+	verifhook.Point("ingress.202.after")
 	_ = json.NewEncoder(w).Encode(map[string]string{"status": "queued"})
 	s.observe(true, enqueued)
 }
